@@ -546,6 +546,13 @@ impl Runner {
             let mut f = self.model.frames[&id].frame.clone();
             f.topic = self.pick_topic();
             (f, "existing-id-other-topic")
+        } else if mode == 4 && self.profile.import_registrations && !self.ctxs.is_empty() {
+            // an xs.context frame OUTSIDE the zero context: stored as is, but it registers nothing
+            let id = self.fresh_import_id();
+            let usable: Vec<u128> = self.model.usable_contexts().into_iter().filter(|c| *c != 0).collect();
+            let home = if usable.is_empty() { self.bogus_ctxs[0] } else { *self.rng.pick(&usable) };
+            self.bogus_ctxs.push(id);
+            (Frame::builder("xs.context", Scru128Id::from(home)).id(Scru128Id::from(id)).build(), "registration-outside-zero-context")
         } else if mode == 3 && self.profile.import_registrations {
             // a context registration arriving by import (forever)
             let id = self.fresh_import_id();
